@@ -69,5 +69,114 @@ pub(crate) fn is_executable(p: &path::PathBuf) -> ⟦(r: ⟧bool⟦)⟧
     false
 }
 //!end
+
+// ---- get_file_checksum / checksum_is_equal: the ONE function of a file's content that both sides of C07 use ----
+pub mod tokio_fs {
+    use vstd::prelude::*;
+    use super::*;
+    pub struct Metadata { pub ghost dir: bool }
+    impl Metadata { #[verifier::external_body] pub fn is_dir(&self) -> (r: bool) ensures r == self.dir { unimplemented!() } }
+    pub struct File { pub ghost p: Seq<char>, pub ghost rest: Seq<u8>, pub ghost read: Seq<u8> }
+    // ASSUMED: stat succeeds exactly when something is there (permission problems aside); it follows symbolic links
+    #[verifier::external_body] pub async fn metadata_async(p: &path::Path, Tracked(w): Tracked<&mut World>) -> (r: Result<Metadata, std::io::Error>)
+        ensures *final(w) == *old(w), r matches Ok(md) ==> md.dir == is_dir_spec(p@) && (is_dir_spec(p@) || old(w).fs.dom().contains(p@)), r is Err ==> !is_dir_spec(p@) && !old(w).fs.dom().contains(p@) { unimplemented!() }
+    impl File {
+        #[verifier::external_body] pub async fn open_async(p: &path::Path, Tracked(w): Tracked<&mut World>) -> (r: Result<File, std::io::Error>)
+            ensures *final(w) == *old(w), r matches Ok(f) ==> f.p == p@ && f.read == Seq::<u8>::empty() && (!is_dir_spec(p@) ==> old(w).fs.dom().contains(p@) && f.rest == old(w).fs[p@]) { unimplemented!() }
+        // AsyncReadExt::read: some non-empty prefix of what is left (at most the buffer); 0 only at the end
+        #[verifier::external_body] pub async fn read_some(&mut self, buf: &mut [u8; 65536], Tracked(w): Tracked<&mut World>) -> (r: Result<usize, std::io::Error>)
+            ensures *final(w) == *old(w), final(self).p == old(self).p,
+                r matches Ok(n) ==> n <= 65536 && n <= old(self).rest.len() && (n == 0 <==> old(self).rest.len() == 0) && final(buf)@.take(n as int) == old(self).rest.take(n as int)
+                    && final(self).rest == old(self).rest.skip(n as int) && final(self).read == old(self).read + old(self).rest.take(n as int) { unimplemented!() }
+    }
+}
+#[verifier::external_body] pub fn new_buffer_64k() -> [u8; 65536] { unimplemented!() }
+#[verifier::external_body] pub fn prefix_of(b: &[u8; 65536], n: usize) -> (r: &[u8]) requires n <= 65536 ensures r@ == b@.take(n as int) { unimplemented!() }
+#[verifier::external_body] pub fn result_is(r: Result<String, MonorailError>, other: &String) -> (b: bool) ensures b == (r matches Ok(s) && s@ == other@) { unimplemented!() }
+// C07 / C02: the checksum of what is at a path NOW: lower-case hex SHA-256 of the whole content of a regular file; the empty string for a
+// directory or when nothing is there
+pub open spec fn sha_now(fs: Map<Seq<char>, Seq<u8>>, p: Seq<char>) -> Seq<char> {
+    if is_dir_spec(p) || !fs.dom().contains(p) { Seq::<char>::empty() } else { hex(sha256(fs[p])) }
+}
+
+//!fn src/core/file.rs get_file_checksum rules=R10,R12 props=C07,C02
+@#[verifier::exec_allows_no_decreases_clause]
+pub(crate) async fn get_file_checksum(p: &path::Path, Tracked(w): Tracked<&mut World>) -> ⟦(res: ⟧Result<String, MonorailError>⟦)⟧
+@    ensures
+@        *final(w) == *old(w),
+@        // C07 / C02: a function of the file's WHOLE current content (whatever its size), the same wherever it is called from
+@        res matches Ok(s) ==> s@ == sha_now(old(w).fs, p@), // [C07,C02]
+{
+    let md = match tokio_fs::metadata_async(p, Tracked(w)).await {
+        Ok(md) => md,
+        Err(_) => {
+            // non-existent/failed to stat files have an empty checksum
+            return Ok(String::new());
+        }
+    };
+    let mut file = match tokio_fs::File::open_async(p, Tracked(w)).await {
+        Ok(file) => file,
+        Err(e) => {
+            // TODO: once io::ErrorKind::IsADirectory, use that
+            // empty directories have no checksum; this is required here
+            // because opening a normal directory would return an error
+            if md.is_dir() {
+                return Ok(String::new());
+            }
+            return Err(MonorailError::from(e));
+        }
+    };
+
+    // check for symlink directory; this is because File::open won't fail to
+    // open the symlink, but attempting to read it will fail
+    if md.is_dir() {
+        return Ok(String::new());
+    }
+
+    // hash the file
+    let mut hasher = sha2::Sha256::new();
+
+    let mut buffer = new_buffer_64k();
+    loop
+@        invariant
+@            *w == *old(w), !is_dir_spec(p@), w.fs.dom().contains(p@),
+@            hasher.fed == file.read, file.read + file.rest == w.fs[p@],
+@        ensures
+@            hasher.fed == w.fs[p@],
+    {
+@        let ghost r0 = file.read; let ghost t0 = file.rest;
+        let num = file.read_some(&mut buffer, Tracked(w)).await?;
+        if num == 0 {
+@            assert(file.read =~= w.fs[p@]) by { assert(t0.len() == 0); assert(r0 + t0 =~= r0); }
+            break;
+        }
+
+        hasher.update(prefix_of(&buffer, num));
+@        assert(file.read + file.rest =~= w.fs[p@]) by { assert((r0 + t0.take(num as int)) + t0.skip(num as int) =~= r0 + t0); }
+    }
+    Ok(sha2::hex_of(hasher.finalize()))
+}
+//!end
+//!fn src/core/file.rs checksum_is_equal rules=R10,R12 props=C07,C02
+pub(crate) async fn checksum_is_equal(
+    pending: &HashMap<String, String>,
+    work_path: &path::Path,
+    name: &str,
+ Tracked(w): Tracked<&mut World>) -> ⟦(r: ⟧bool⟦)⟧
+@    ensures
+@        *final(w) == *old(w),
+@        // C02 / C07: a path is settled only if the pending map records exactly the checksum of its current content
+@        r ==> pending@.dom().contains(name@) && pending@[name@]@ == sha_now(old(w).fs, path_join(work_path@, name@)), // [C07,C02]
+@        !pending@.dom().contains(name@) ==> !r,
+{
+    match pending.get(name) {
+        Some(checksum) => {
+            // compute checksum of x.name and check not equal
+            result_is(get_file_checksum(&work_path.join(name), Tracked(w)).await, checksum)
+        }
+        None => false,
+    }
+}
+//!end
 } // verus!
 fn main() {}
